@@ -5,6 +5,7 @@
 
 #include <cnl/elastic_integer.h>
 #include <cnl/elastic_scaled_integer.h>
+#include "harness/c11.h"  // deep / deepval for multi-limb (wide_integer) storage
 
 namespace c05 {
 using namespace vf;
@@ -168,6 +169,102 @@ void binary(char const* desc)
                 ++t.ood;
             } else
                 t.violation(o.kind == VALUE ? verdict : kind_name(o.kind), o, in(), ex(), ob(), nt);
+        }
+    t.emit();
+}
+
+// ---- elastic_integer on wide_integer storage (more than 127 digits): operands and results as X (<= 255 bits)
+template<int D>
+std::vector<X> wide_values(Rng& rng, size_t& ndistinct, long nrand)
+{
+    std::vector<X> v;
+    X m = xpow2((unsigned)D) - X::from_u(1);
+    auto add = [&](X const& x) { if (x <= m && x >= -m) v.push_back(x); };
+    for (int d = 0; d <= 3; ++d) { add(X::from_i(d)); add(X::from_i(-d)); add(m - X::from_i(d)); add(-m + X::from_i(d)); add(tdiv(m, X::from_u(2)) + X::from_i(d)); }
+    for (int k = 1; k < D; k += (k % 32 == 31 || k % 32 == 0 || k % 32 == 1 || k % 64 == 63 || k % 64 == 62) ? 1 : 5)
+        for (int d = -1; d <= 1; ++d) { add(xpow2((unsigned)k) + X::from_i(d)); add(-(xpow2((unsigned)k) + X::from_i(d))); }
+    // zero / all-ones limbs in the middle, value in the top limb (long-division and partial-product corner cases)
+    for (int top : {D - 1, D - 8, D - 33})
+        if (top > 70) {
+            add(xpow2((unsigned)top) + X::from_u(0x1234567890abcdefull));
+            add(xpow2((unsigned)top) * X::from_u(41) + X::from_u(5));
+            add(xpow2((unsigned)top) - xpow2(64) + X::from_u(7));
+            add(-(xpow2((unsigned)top) + X::from_u(3)));
+        }
+    std::sort(v.begin(), v.end(), [](X const& a, X const& b) { return a < b; });
+    v.erase(std::unique(v.begin(), v.end()), v.end());
+    ndistinct = v.size();
+    for (long i = 0; i < nrand; ++i) {
+        X x;
+        int bits = 1 + (int)rng.below((uint64_t)D);
+        for (int w = 0; w < 4; ++w) x.m[w] = rng.next();
+        x = shr_mag(x, 256 - bits);
+        if (rng.next() & 1) x = -x;
+        add(x);
+    }
+    return v;
+}
+
+template<int Oper, int LD, int RD, class N>
+void binary_wide(char const* desc)
+{
+    if (!kernel_selected(desc)) return;
+    using A = cnl::elastic_integer<LD, N>;
+    using B = cnl::elastic_integer<RD, N>;
+    Tally t(desc);
+    Rng rng(mix(env_seed(), hash_str(desc)));
+    size_t na, nb;
+    long nr = env_long("VERIF_NRAND", 40) * 3;
+    auto as = wide_values<LD>(rng, na, nr);
+    auto bs = wide_values<RD>(rng, nb, nr);
+    for (size_t i = 0; i < as.size() && !t.closed; ++i)
+        for (size_t j = 0; j < bs.size(); ++j) {
+            X const& xa = as[i];
+            X const& xb = bs[j];
+            if ((Oper == DIV || Oper == MOD) && xb.zero()) { ++t.ood; continue; }
+            x_overflowed = false;
+            X want;
+            bool bwant = false;
+            if (Oper == ADD) want = xa + xb;
+            else if (Oper == SUB) want = xa - xb;
+            else if (Oper == MUL) want = xa * xb;
+            else if (Oper == DIV) want = tdiv(xa, xb);
+            else if (Oper == MOD) want = trem(xa, xb);
+            else if (Oper == LT) bwant = xa < xb;
+            else bwant = xa == xb;
+            if (x_overflowed) { ++t.ood; continue; }
+            X got;
+            bool bgot = false;
+            std::string verdict;
+            Outcome o = guarded([&] {
+                A a = c11::deep<A>(xa);
+                B b = c11::deep<B>(xb);
+                if constexpr (Oper <= MOD) {
+                    auto r = [&] {
+                        if constexpr (Oper == ADD) return a + b;
+                        else if constexpr (Oper == SUB) return a - b;
+                        else if constexpr (Oper == MUL) return a * b;
+                        else if constexpr (Oper == DIV) return a / b;
+                        else return a % b;
+                    }();
+                    using R = decltype(r);
+                    got = c11::deepval(r);
+                    int rd = cnl::digits_v<R>;
+                    X lim = rd < 255 ? xpow2((unsigned)rd) - X::from_u(1) : xpow2(254);
+                    if (got != want) verdict = "wrong_value";
+                    else if (rd < 255 && (got > lim || got < -lim)) verdict = "outside_declared_range";
+                } else {
+                    bgot = Oper == LT ? a < b : a == b;
+                    if (bgot != bwant) verdict = "wrong_truth_value";
+                }
+            });
+            bool nt = i < na && j < nb;
+            auto in = [&] { return xa.str() + " " + opname(Oper) + " " + xb.str(); };
+            if (o.kind == VALUE && verdict.empty()) {
+                t.held(o, nt);
+                t.sample(nt, in, [&] { return Oper >= LT ? std::string(bwant ? "true" : "false") : want.str(); }, [&] { return Oper >= LT ? std::string(bgot ? "true" : "false") : got.str(); });
+            } else
+                t.violation(o.kind == VALUE ? verdict : kind_name(o.kind), o, in(), Oper >= LT ? std::string(bwant ? "true" : "false") : want.str(), outcome_str(o, got.str()), nt);
         }
     t.emit();
 }
